@@ -83,12 +83,13 @@ class MarshalRoles:
         # source iterator: bound from iter(<a parameter>)
         params = [a.arg for a in self.pump.args.args]
         its = [n for n in walk_no_nested(self.pump) if isinstance(n, ast.Assign) and isinstance(n.value, ast.Call)
-               and call_name(n.value) == "iter" and len(n.value.args) == 1 and isinstance(n.value.args[0], ast.Name)
-               and n.value.args[0].id in params and isinstance(n.targets[0], ast.Name)]
+               and call_name(n.value) == "iter" and len(n.value.args) == 1 and isinstance(n.targets[0], ast.Name)
+               and any(isinstance(x, ast.Name) and x.id in params for x in ast.walk(n.value.args[0]))]
         if len(its) != 1:
             raise AnalysisError(f"role `source iterator` has {len(its)} bearers in the pump")
         self.iter_var = its[0].targets[0].id
-        self.buffer_param = its[0].value.args[0].id
+        self.iter_source = its[0].value.args[0]  # normally the bare buffer parameter
+        self.buffer_param = next(x.id for x in ast.walk(its[0].value.args[0]) if isinstance(x, ast.Name) and x.id in params)
         nx = [n for n in walk_no_nested(self.pump) if isinstance(n, ast.Assign) and isinstance(n.value, ast.Call)
               and call_name(n.value) == "next" and n.value.args and isinstance(n.value.args[0], ast.Name)
               and n.value.args[0].id == self.iter_var and isinstance(n.targets[0], ast.Name)]
